@@ -76,6 +76,26 @@ func readAll(r kvdb.Iteratee, p, s []byte) ([][2]string, error) {
 	return out, it.Error()
 }
 
+// readAllInterleaved iterates like readAll, but between the steps other reads go through the same store (a lookup
+// of another key, a second iterator that is opened, advanced and released): reads must not disturb a live iterator
+func readAllInterleaved(r kvdb.IteratedReader, p, s []byte) ([][2]string, error) {
+	it := r.NewIterator(p, s)
+	defer it.Release()
+	var out [][2]string
+	i := 0
+	for it.Next() {
+		out = append(out, [2]string{string(it.Key()), string(it.Value())})
+		k := probeKeys[i%len(probeKeys)]
+		i++
+		_, _ = r.Get([]byte(k))
+		_, _ = r.Has([]byte(k + "z"))
+		it2 := r.NewIterator([]byte(k), nil)
+		it2.Next()
+		it2.Release()
+	}
+	return out, it.Error()
+}
+
 func observe(what string, r kvdb.IteratedReader, m map[string][]byte) string {
 	for _, k := range probeKeys {
 		got, err := r.Get([]byte(k))
@@ -94,6 +114,12 @@ func observe(what string, r kvdb.IteratedReader, m map[string][]byte) string {
 			want := kv.Range(m, p, s)
 			if err != nil || fmt.Sprint(got) != fmt.Sprint(want) {
 				return fmt.Sprintf("%s iterate(prefix=%q,start=%q)=%q err=%v; model %q", what, p, s, got, err, want)
+			}
+			if len(want) > 0 {
+				got, err = readAllInterleaved(r, p, s)
+				if err != nil || fmt.Sprint(got) != fmt.Sprint(want) {
+					return fmt.Sprintf("%s iterate(prefix=%q,start=%q) with other reads between the steps =%q err=%v; model %q", what, p, s, got, err, want)
+				}
 			}
 		}
 	}
